@@ -28,6 +28,7 @@
                                the assignments of the leader's SyncGroup request (clause sync_plan_complete, property C08)
      coord_down                the coordinator (and seed broker) became unreachable: premise of final_commit_after_cleanup gone
      cleanup_wait c, hbs, expired   end of a long Cleanup that waited for heartbeats (clause heartbeats_until_final_commit)
+     ofetch_fail c, kind, n    n-th refused initial OffsetFetch of the call (clause setup_within_retry_budget: n <= Metadata.Retry.Max + 1)
      setup_fail c              the handler's Setup returns an error: the session ends in set-up (no claim starts; the code runs
                                Cleanup and Consume returns the error). ofetch_fail c, kind (the session's initial OffsetFetch is
                                refused: no Setup at all, Consume returns the error) needs no clause of its own
@@ -48,7 +49,7 @@
 EXTENDS Integers, Sequences, FiniteSets
 
 OC == {"c1", "c2", "c3"}
-OP == 0..2
+OP == 0..4
 NoPair == <<"", -1>>
 
 ToSetO(s) == {s[k] : k \in DOMAIN s}
@@ -286,6 +287,8 @@ ObsStep(o, e) ==
     [] e.ev = "cleanup_wait" ->
          [o EXCEPT !.bad = W(e.expired /\ e.hbs = 0 /\ o.ph[e.c] = "cleanup" /\ ~o.hbstop[e.c] /\ ~o.cdown,
                              "heartbeats_until_final_commit")]
+    \* the session's initial OffsetFetch is retried Metadata.Retry.Max times at most, then Consume returns the error
+    [] e.ev = "ofetch_fail" -> [o EXCEPT !.bad = W("n" \in DOMAIN e /\ e.n > o.hbretry + 1, "setup_within_retry_budget")]
     [] e.ev = "setup_fail" -> [o EXCEPT !.sessEnd[e.c] = TRUE, !.bad = HandlerWhileOut(o, e.c)]
     [] e.ev = "claim_fail" -> [o EXCEPT !.sessEnd[e.c] = TRUE, !.bad = {}]
     [] e.ev = "panic" -> [o EXCEPT !.bad = {"consume_panic"}]
